@@ -92,21 +92,22 @@ type reqRecord struct {
 }
 
 type world struct {
-	r       *ev.Run
-	lab     *tunlab.Lab
-	ca      tls.Certificate
-	victim  *tunlab.Client // a registered client whose hostnames the unauthenticated callers aim at
-	leaf    *tls.Certificate
-	mu      *sync.Mutex
-	codes   map[string]int
-	served  map[string]bool
-	samples *int
-	kv      string // how the storage answers absent keys
+	legacyVictim *tunlab.Client // registered client with a v1 subject (may be nil)
+	r            *ev.Run
+	lab          *tunlab.Lab
+	ca           tls.Certificate
+	victim       *tunlab.Client // a registered client whose hostnames the unauthenticated callers aim at
+	leaf         *tls.Certificate
+	mu           *sync.Mutex
+	codes        map[string]int
+	served       map[string]bool
+	samples      *int
+	kv           string // how the storage answers absent keys
 }
 
 func main() {
 	r := ev.Start("C25", "exploration")
-	r.SetRule("every method of every service in tunnel.proto and keyless.proto (from the protobuf descriptors; cross-checked against the Go interfaces protocol.TunnelService / KeylessService) x caller {no certificate (claiming a registered identity), certificate with malformed subject, fresh v2 certificate never registered, fresh v1 certificate never registered} x bodies {empty, effective protobuf, effective JSON, seeded garbage, oversized} x DHT storage answering absent keys with {nil, empty non-nil value} through the real twirp servers; plus every method at handler level without any delegation, plus a registered control caller per method (shows that the effective body does take effect once authenticated). 'Effective' = the request would change or reveal state if only authentication were skipped: the caller's own token prefix already holds the hostname, routes exist, the custom hostname is bound to the caller, the proof of work is valid and fresh, the CNAME answer is right. Distinct = (storage variant, method, caller class, body kind); non-trivial = method is not exempt (Ping, RegisterIdentity).")
+	r.SetRule("every method of every service in tunnel.proto and keyless.proto (from the protobuf descriptors; cross-checked against the Go interfaces protocol.TunnelService / KeylessService) x caller {no certificate (claiming a registered identity), certificate with malformed subject, fresh v2 certificate never registered, fresh v1 certificate never registered, v1 certificate whose token extends a registered v1 token with ':x'} x bodies {empty, effective protobuf, effective JSON, seeded garbage, oversized} x DHT storage answering absent keys with {nil, empty non-nil value} through the real twirp servers; plus every method at handler level without any delegation, plus a registered control caller per method (shows that the effective body does take effect once authenticated). 'Effective' = the request would change or reveal state if only authentication were skipped: the caller's own token prefix already holds the hostname, routes exist, the custom hostname is bound to the caller, the proof of work is valid and fresh, the CNAME answer is right. Distinct = (storage variant, method, caller class, body kind); non-trivial = method is not exempt (Ping, RegisterIdentity).")
 	r.Assume("a refusal is any response other than HTTP 200 (the twirp code is recorded: unauthenticated for the listener path, internal for the missing delegation)")
 	r.Assume("the per-IP rate limiter is kept out of the way by giving every connection its own remote IP; a 429 would be reported as inconclusive")
 	r.Assume("'changes nothing in the DHT' = no mutating call (Put/Delete/PrefixAppend/PrefixRemove/Acquire/Renew/Release/Import/RemoveKeys) reaches the ring's storage between request and response, and the full key dump is identical")
@@ -369,6 +370,14 @@ func (w *world) runMethod(m method, rng *rand.Rand, garbagePerCell, rounds int) 
 		return
 	}
 	vGen, vCust, vNew := w.seed(w.victim, "victim-"+strings.ToLower(m.Name))
+	// a second registered client with a legacy (v1) subject
+	w.legacyVictim = tunlab.NewClient(w.ca, "victim-v1", uint64(rng.Int63n(1<<40)), fmt.Sprintf("legacy-registered-%d", rng.Int63()))
+	lvc := &caller{Class: "registered", cert: w.legacyVictim.Cert, claimed: w.legacyVictim.Node, client: w.legacyVictim}
+	if st, _, _, err := w.do(lvc, regM, "application/protobuf", nil); err != nil || st != 200 {
+		w.legacyVictim = nil // registration of legacy subjects is not what is examined here
+	} else {
+		w.seed(w.legacyVictim, "victimv1-"+strings.ToLower(m.Name))
+	}
 
 	type cell struct {
 		c                 *caller
@@ -395,6 +404,13 @@ func (w *world) runMethod(m method, rng *rand.Rand, garbagePerCell, rounds int) 
 				claimed = w.victim.Node // claims to be the registered client, certificate says otherwise
 			}
 			cells = append(cells, cell{c: &caller{Class: "unregistered-" + v, cert: cl.Cert, claimed: claimed, client: cl}, hGen: g, hCust: c, hNew: n})
+		}
+		// a legacy (v1) certificate whose token EXTENDS a registered legacy token with the subject's own
+		// separator ("<registered>:x"): a different token, never registered
+		if w.legacyVictim != nil {
+			cl := tunlab.NewClient(w.ca, "unreg-v1-ext", uint64(rng.Int63n(1<<40)), string(w.legacyVictim.Token)+":x")
+			g, c, n := w.seed(cl, fmt.Sprintf("unregv1ext-%s-%d", strings.ToLower(m.Name), rng.Intn(1e6)))
+			cells = append(cells, cell{c: &caller{Class: "unregistered-v1", cert: cl.Cert, claimed: cl.Node, client: cl}, hGen: g, hCust: c, hNew: n})
 		}
 		return cells
 	}
